@@ -648,6 +648,7 @@ func VerifC02Hanging() {
 	hang := make([]string, len(elems))
 	above := make([]string, len(elems))
 	blank := make([]bool, len(elems))
+	detached := make([]bool, len(elems))
 	for k := range elems {
 		tag := "e" + strconv.Itoa(k)
 		if vfTier() > 0 || k < 2 {
@@ -660,6 +661,12 @@ func VerifC02Hanging() {
 				above[k] = vfOpaque(tag+".a", "//A"+names[k])
 			}
 			blank[k] = vfChoice(tag+".blank", 2) == 1
+			// the comment above clause k may itself be separated from the clause by a blank line; at the
+			// case column it still belongs to the clause that follows (link(): "subsequent comments that
+			// have the same indent as the Start ... are attached there")
+			if above[k] != "" && !blank[k] && k == 1 {
+				detached[k] = vfChoice(tag+".detached", 2) == 1
+			}
 		}
 	}
 	startIdx := func(n ast.Node) int {
@@ -722,7 +729,7 @@ func VerifC02Hanging() {
 				ins = append(ins, &newlineFragment{Empty: blank[k]})
 			}
 			if a := above[k]; a != "" {
-				ins = append(ins, &commentFragment{Text: a, Indent: caseCol}, &newlineFragment{})
+				ins = append(ins, &commentFragment{Text: a, Indent: caseCol}, &newlineFragment{Empty: detached[k]})
 			}
 		}
 		insertAt(idx, ins)
@@ -869,7 +876,11 @@ func VerifC02Hanging() {
 			}
 			vfAssert(got[ci].Text == a, "edit/above-comment-travels-with-element")
 			vfAssert(got[ci].Slash+token.Pos(len(a)) <= first, "edit/above-comment-before-its-element")
-			vfAssert(vfBreaks(r, mark, got[ci].Slash+token.Pos(len(a)), first) == 1, "edit/above-comment-directly-above")
+			if detached[k] {
+				vfAssert(vfBreaks(r, mark, got[ci].Slash+token.Pos(len(a)), first) >= 2, "edit/detached-comment-keeps-its-blank-line")
+			} else {
+				vfAssert(vfBreaks(r, mark, got[ci].Slash+token.Pos(len(a)), first) == 1, "edit/above-comment-directly-above")
+			}
 			ci++
 		}
 		if h := hang[k]; h != "" {
